@@ -5,9 +5,10 @@ use super::{Context, LintRule};
 use crate::tags::{self, Tags};
 use crate::Program;
 use crate::ProgramRef;
-use deno_ast::swc::ast::{ArrayPat, ObjectPat, ObjectPatProp};
+use deno_ast::swc::ast::{ArrayPat, ObjectPat};
 use deno_ast::swc::ecma_visit::noop_visit_type;
 use deno_ast::swc::ecma_visit::Visit;
+use deno_ast::swc::ecma_visit::VisitWith;
 use deno_ast::SourceRangedForSpanned;
 
 #[derive(Debug)]
@@ -54,31 +55,17 @@ impl<'c, 'view> NoEmptyPatternVisitor<'c, 'view> {
 impl Visit for NoEmptyPatternVisitor<'_, '_> {
   noop_visit_type!();
 
-  fn visit_object_pat_prop(&mut self, obj_pat_prop: &ObjectPatProp) {
-    if let ObjectPatProp::KeyValue(kv_prop) = obj_pat_prop {
-      if let deno_ast::swc::ast::Pat::Object(obj_pat) = &*kv_prop.value {
-        self.visit_object_pat(obj_pat);
-      } else if let deno_ast::swc::ast::Pat::Array(arr_pat) = &*kv_prop.value {
-        self.visit_array_pat(arr_pat);
-      }
-    }
-  }
-
   fn visit_object_pat(&mut self, obj_pat: &ObjectPat) {
-    if obj_pat.props.is_empty() {
-      if obj_pat.type_ann.is_none() {
-        self.context.add_diagnostic_with_hint(
-          obj_pat.range(),
-          CODE,
-          MESSAGE,
-          HINT,
-        )
-      }
-    } else {
-      for prop in &obj_pat.props {
-        self.visit_object_pat_prop(prop)
-      }
+    if obj_pat.props.is_empty() && obj_pat.type_ann.is_none() {
+      self.context.add_diagnostic_with_hint(
+        obj_pat.range(),
+        CODE,
+        MESSAGE,
+        HINT,
+      )
     }
+    // nested patterns and default values
+    obj_pat.visit_children_with(self);
   }
 
   fn visit_array_pat(&mut self, arr_pat: &ArrayPat) {
@@ -89,15 +76,9 @@ impl Visit for NoEmptyPatternVisitor<'_, '_> {
         MESSAGE,
         HINT,
       )
-    } else {
-      for element in arr_pat.elems.iter().flatten() {
-        if let deno_ast::swc::ast::Pat::Object(obj_pat) = element {
-          self.visit_object_pat(obj_pat);
-        } else if let deno_ast::swc::ast::Pat::Array(arr_pat) = element {
-          self.visit_array_pat(arr_pat);
-        }
-      }
     }
+    // nested patterns and default values
+    arr_pat.visit_children_with(self);
   }
 }
 
